@@ -771,11 +771,81 @@ class Engine:
         if len(atoms) > MAX_ATOMS:
             raise Undecided(f"{len(atoms)} atoms exceed the truth-table bound {MAX_ATOMS}")
         groups = self.exclusive_groups(atoms)
+        zw = self._zero_width_links(atoms)
         for bits in itertools.product((False, True), repeat=len(atoms)):
             val = dict(zip(atoms, bits))
             if any(sum(val[a] for a in g) > 1 for g in groups):
                 continue
+            if any(val[la] == lv and val[a] != forced for la, lv, a, forced in zw):
+                continue
             yield val
+
+    # -- a zero-width value is 0: `len(S) == 0` fixes every test of an expression that vanishes with S --
+    @staticmethod
+    def _len_of(e):
+        if e[0] == 'call' and e[1] == ('name', 'len') and len(e[2]) == 1:
+            return e[2][0]
+        return None
+
+    def _len_zero_when(self, e):
+        """(S, truth) when the generation-time comparison `e` has truth value `truth` exactly for len(S) == 0."""
+        if e[0] != 'cmp' or e[1] not in ('<', '<=', '>', '>=', '=='):
+            return None
+        import operator
+        ops = {'<': operator.lt, '<=': operator.le, '>': operator.gt, '>=': operator.ge, '==': operator.eq}
+        for a, b, flip in ((e[2], e[3], False), (e[3], e[2], True)):
+            s = self._len_of(a)
+            if s is None and a[0] == 'lin' and a[1] == 0 and len(a[2]) == 1 and a[2][0][1] == 1:
+                s = self._len_of(a[2][0][0])
+            if s is None or b[0] != 'const' or not isinstance(b[1], int) or isinstance(b[1], bool):
+                continue
+            f = (lambda n: ops[e[1]](b[1], n)) if flip else (lambda n: ops[e[1]](n, b[1]))
+            t0 = f(0)
+            if all(f(n) != t0 for n in range(1, 66)):
+                return s, t0
+        return None
+
+    def _vanishes_with(self, e, s):
+        """`e` is the constant 0 whenever `s` has width 0 (operands are zero-extended; a slice of nothing is nothing)."""
+        if e == s:
+            return True
+        k = e[0]
+        if k == 'bin' and e[1] == '&':
+            return self._vanishes_with(e[2], s) or self._vanishes_with(e[3], s)
+        if k == 'bin' and e[1] in ('|', '^'):
+            return self._vanishes_with(e[2], s) and self._vanishes_with(e[3], s)
+        if k == 'nary' and e[1] == '&':
+            return any(self._vanishes_with(x, s) for x in e[2])
+        if k == 'nary' and e[1] in ('|', '^'):
+            return all(self._vanishes_with(x, s) for x in e[2])
+        if k == 'sub':
+            return self._vanishes_with(e[1], s)
+        if k == 'call' and e[1][0] == 'attr' and e[1][2] in ('any', 'bool') and not e[2]:
+            return self._vanishes_with(e[1][1], s)
+        return False
+
+    def _zero_width_links(self, atoms):
+        links = []
+        for la in atoms:
+            e = self.atom_ir.get(la)
+            z = self._len_zero_when(e) if e is not None else None
+            if z is None:
+                continue
+            s, t0 = z
+            for a in atoms:
+                if a == la:
+                    continue
+                ea = self.atom_ir.get(a)
+                if ea is None:
+                    continue
+                if ea[0] == 'cmp' and ea[1] == '==':
+                    for x, y in ((ea[2], ea[3]), (ea[3], ea[2])):
+                        if y == ('const', 0) and self._vanishes_with(x, s):
+                            links.append((la, t0, a, True))
+                            break
+                elif self._vanishes_with(ea, s) and ea != s:
+                    links.append((la, t0, a, False))
+        return links
 
 
 class DL:
